@@ -12,7 +12,7 @@ import tlcrun  # noqa: E402
 NPROC = int(os.environ.get("VERIF_NPROC", "16"))
 
 MC_INVARIANTS = ["Inv_C01_ParentChild", "Inv_C01_PinWire", "Inv_C02_RefSets", "Inv_C02_OuterPins",
-                 "Inv_C02_Dropped", "Inv_C10_Unique", "Inv_C10_LegalIds"]
+                 "Inv_C02_Dropped", "Inv_C10_Unique", "Inv_C10_LegalIds", "Inv_OracleSane"]
 
 
 def mc_cfg(scope, depth, emit, module_consts=""):
@@ -22,24 +22,55 @@ def mc_cfg(scope, depth, emit, module_consts=""):
                "".join("INVARIANT %s\n" % i for i in MC_INVARIANTS)))
 
 
-def generate(scope, depth, module="MC", timeout=3600):
-    """model-check the scope; returns (tlc result, init calls, groups=[(hist, cands)])"""
+def generate(scope, depth, module="MC", timeout=3600, sim=None, seed=0):
+    """model-check the scope (or, with sim=N, let TLC simulate N random behaviours of length depth);
+    returns (tlc result, init calls, groups=[(hist, cands)]) with one group per distinct history"""
     groups = []
+    seen = set()
+    walkflag = []
     init = []
     lookup = []
 
     def on_line(line):
         if line.startswith('<<"ST", '):
             rec = tlcrun.parse_print(line, "ST")
-            groups.append((rec["h"], rec["c"]))
+            key = json.dumps(rec["h"], sort_keys=True)
+            if key not in seen:
+                seen.add(key)
+                groups.append((rec["h"], rec["c"]))
+                if rec.get("walk"):
+                    walkflag.append(bool(rec.get("wq")))
         elif line.startswith('<<"INIT", '):
             rec = tlcrun.parse_print(line, "INIT")
             init[:] = rec["init"]
             lookup[:] = sorted(rec.get("lookup", []))
 
-    res = tlcrun.run(module, mc_cfg(scope, depth, True), workers=NPROC, heap="8g", on_line=on_line,
-                     timeout=timeout)
+    if sim:
+        res = tlcrun.run(module, mc_cfg(scope, depth, True), workers=1, heap="4g", on_line=on_line,
+                         timeout=timeout, simulate="num=%d" % sim,
+                         extra=["-depth", str(depth + 1), "-seed", str(seed + 1)])
+        res["ok"] = not res["errors"]
+        res["distinct"] = len(groups)
+        res["states"] = max(res["states"], len(groups))
+    else:
+        res = tlcrun.run(module, mc_cfg(scope, depth, True), workers=NPROC, heap="8g", on_line=on_line,
+                         timeout=timeout)
     res["lookup"] = list(lookup)
+    res["walk"] = bool(walkflag)
+    res["walkq"] = any(walkflag)
+    if walkflag:      # behaviours: keep the maximal histories only
+        keys = sorted((json.dumps(g[0], sort_keys=True)[:-1], g) for g in groups)
+        maximal = []
+        for i, (k, g) in enumerate(keys):
+            if g[0] and not (i + 1 < len(keys) and keys[i + 1][0].startswith(k + ",")):
+                maximal.append(g)
+        # the simulator evaluates the emitting invariant on every candidate successor, so there are many
+        # maximal histories per simulated behaviour: keep the longest ones, a bounded deterministic sample
+        longest = max((len(g[0]) for g in maximal), default=0)
+        full = [g for g in maximal if len(g[0]) >= longest - 1]
+        rnd = __import__("random").Random(seed)
+        rnd.shuffle(full)
+        groups = full[:max(1, (sim or 50) * 4)]
     return res, list(init), groups
 
 
@@ -71,6 +102,9 @@ def _run_group(harness, init, hist, cands, listeners):
         rec = {"t": "call", "call": c, "out": out, "exc": exc, "same": same}
         if not same:
             rec["state"] = s1
+        if reg.last_ret is not None:
+            rec["ret"] = reg.last_ret
+            rec["info"] = reg.last_info
         msame = True
         if reg.mirror:
             m1 = harness.project_mirror(reg)
@@ -87,9 +121,62 @@ def _run_group(harness, init, hist, cands, listeners):
     return head, recs, errors
 
 
+STD_QUERIES = [{"op": "hq", "fn": fn, "root": {"t": "N", "id": 1}, "rec": True, "sel": "DEFAULT"}
+               for fn in ("hinstances", "hports", "hpins", "hcables", "hwires")]
+
+
+def _run_chain(harness, init, hist, listeners, observe=False):
+    """execute a whole behaviour on the same objects; every step is a record whose pre-state is the
+    previous record's post-state"""
+    reg = harness.build(init, listeners)
+    if observe:
+        reg.held = {}
+    s_prev = harness.project(reg)
+    m_prev = harness.project_mirror(reg) if reg.mirror else None
+    head = {"t": "reset", "h": [], "state": s_prev}
+    if m_prev is not None:
+        head["mirror"] = m_prev
+    recs = []
+    last_step = 0          # index (0 = the reset record) of the record holding the current state
+    for c in hist:
+        if reg.mirror:
+            reg.mirror.begin_call()
+        try:
+            out, exc = harness.execute(reg, c)
+        except harness.HarnessError:
+            break
+        s1 = harness.project(reg)
+        rec = {"t": "call", "call": c, "out": out, "exc": exc, "same": s1 == s_prev, "state": s1,
+               "pre_rel": last_step}
+        s_prev = s1
+        if reg.last_ret is not None:
+            rec["ret"] = reg.last_ret
+            rec["info"] = reg.last_info
+        if reg.mirror:
+            rec["msame"] = False
+            rec["ann"] = list(reg.mirror.ann)
+            rec["mirror"] = harness.project_mirror(reg)
+        recs.append(rec)
+        last_step = len(recs)
+        if observe and out == "ok" and c["op"] != "hq":
+            # observation records: the standard hierarchical queries after every step, on the same objects
+            for q in STD_QUERIES:
+                harness.execute(reg, q)
+                recs.append({"t": "call", "call": q, "out": "ok", "exc": "", "same": True,
+                             "pre_rel": last_step, "ret": reg.last_ret, "info": reg.last_info})
+            if reg.held:         # re-read every reference held from earlier queries
+                q = {"op": "hcheck", "held": True, "hs": [json.loads(k) for k in sorted(reg.held)][:60]}
+                harness.execute(reg, q)
+                recs.append({"t": "call", "call": q, "out": "ok", "exc": "", "same": True,
+                             "pre_rel": last_step, "ret": [], "info": reg.last_info})
+    return head, recs, []
+
+
 def replay_slice(args):
     """worker: replay a slice of groups, write one NDJSON shard.  Returns statistics."""
-    idx, init, groups, path, lookup, listeners = args
+    idx, init, groups, path, lookup, listeners = args[:6]
+    chain = args[6] if len(args) > 6 else False
+    observe = chain == "observe"
     import harness
     harness.LOOKUP_VALUES = list(lookup)
     st = {"groups": 0, "calls": 0, "ok": 0, "refused": 0, "changed_refused": 0, "unbuildable": 0,
@@ -99,13 +186,16 @@ def replay_slice(args):
     with open(path, "w") as f:
         for gi, (hist, cands) in enumerate(groups):
             try:
-                head, recs, errs = _run_group(harness, init, hist, cands, listeners)
+                if chain:
+                    head, recs, errs = _run_chain(harness, init, hist, listeners, observe)
+                else:
+                    head, recs, errs = _run_group(harness, init, hist, cands, listeners)
             except harness.HarnessError as e:
                 st["harness_errors"].append("build %r: %s" % (hist, e))
                 continue
             st["harness_errors"].extend(errs)
             others = []
-            if listeners and gi % 4 == 0:     # listener configurations: same behaviour under "", AB, BA
+            if listeners and gi % 4 == 0 and not chain:     # listener configurations: same behaviour under "", AB, BA
                 for cfg in ("", "AB", "BA"):
                     try:
                         others.append(_run_group(harness, init, hist, cands, cfg)[1])
@@ -120,7 +210,7 @@ def replay_slice(args):
                 if rec is None:
                     st["unbuildable"] += 1
                     continue
-                rec["pre"] = base
+                rec["pre"] = base + rec.pop("pre_rel") if "pre_rel" in rec else base
                 if others:
                     agree = True
                     for o in others:
@@ -145,12 +235,14 @@ def replay_slice(args):
     return st
 
 
-def replay(init, groups, outdir, nshards=None, lookup=(), listeners=""):
+def replay(init, groups, outdir, nshards=None, lookup=(), listeners="", chain=False):
     nshards = nshards or NPROC
     os.makedirs(outdir, exist_ok=True)
-    slices = [(i, init, groups[i::nshards], os.path.join(outdir, "shard%02d.ndjson" % i), list(lookup), listeners)
+    slices = [(i, init, groups[i::nshards], os.path.join(outdir, "shard%02d.ndjson" % i), list(lookup), listeners, chain)
               for i in range(nshards)]
     slices = [s for s in slices if s[2]]
+    if not slices:
+        return [], []
     with mp.Pool(min(NPROC, len(slices))) as pool:
         stats = pool.map(replay_slice, slices)
     return [s[3] for s in slices], stats
@@ -184,6 +276,27 @@ def validate(shards, strict=True, module="Trace"):
         return pool.map(_validate_one, [(p, strict, module) for p in shards])
 
 
+def history_of(path, k):
+    """for record k of a shard: (reset record, calls executed on the same objects before record k,
+    the record).  In star mode that is the group's history; in chain mode the steps of the chain."""
+    with open(path) as f:
+        recs = {}
+        for i, line in enumerate(f, 1):
+            if i <= k:
+                recs[i] = line
+            else:
+                break
+    rec = json.loads(recs[k])
+    calls = []
+    cur = rec
+    while cur["t"] != "reset":
+        cur_i = cur["pre"]
+        cur = json.loads(recs[cur_i])
+        if cur["t"] == "call":
+            calls.append(cur["call"])
+    return cur, list(cur.get("h", [])) + list(reversed(calls)), rec
+
+
 def read_record(path, k):
     with open(path) as f:
         for i, line in enumerate(f, 1):
@@ -196,11 +309,12 @@ if __name__ == "__main__":
     scope, depth = sys.argv[1], int(sys.argv[2])
     LISTEN = sys.argv[3] if len(sys.argv) > 3 else ""
     t0 = time.time()
-    res, init, groups = generate(scope, depth)
+    SIM = int(sys.argv[4]) if len(sys.argv) > 4 else None
+    res, init, groups = generate(scope, depth, sim=SIM)
     print("generate", res["wall_s"], "s states", res["states"], "distinct", res["distinct"], "groups",
           len(groups), "ok", res["ok"], res["errors"][:5])
     out = tlcrun.scratch("irflow-")
-    shards, stats = replay(init, groups, out, lookup=res["lookup"], listeners=LISTEN)
+    shards, stats = replay(init, groups, out, lookup=res["lookup"], listeners=LISTEN, chain=("observe" if res.get("walkq") else res.get("walk", False)))
     tot = {k: sum(s[k] for s in stats) for k in ("groups", "calls", "ok", "refused", "changed_refused",
                                                    "unbuildable", "records", "nontrivial_refused")}
     print("replay", round(time.time() - t0, 1), tot, [s["harness_errors"][:2] for s in stats if s["harness_errors"]][:3])
